@@ -5,6 +5,7 @@ R20.2 optional keys of the per-species record are read only under a presence tes
 R20.3 explicit species are removed before scanning; the exclusion test precedes the append
 R20.4 the explicit pipeline is load -> attach -> align -> maps -> extrapolate, with scale, output path,
       reference path and each element of the species triple forwarded to the matching library parameter
+R20.6 every species is offered the same candidate files: no one-shot iterator (filter/map/zip/generator) created once and consumed per species
 R20.5 a command-line run keeps no table between calls; candidate names are stored as given (or the explicit species is still refused by the System); the exclusion container is a collection, not a string
 """
 from __future__ import annotations
@@ -47,7 +48,9 @@ def run(ctx: Ctx):
     ctx.attempt("R20.2", lambda: r20_2(ctx, R))
     ctx.attempt("R20.3", lambda: r20_3(ctx, R))
     ctx.attempt("R20.4", lambda: r20_4(ctx, R))
-    from ..util import persistent_state
+    from ..util import persistent_state, reused_iterators
+    ctx.attempt("R20.6", lambda: reused_iterators(ctx, "R20.6", [f_ for f_ in ctx.repo.funcs.values() if f_.qual.startswith("gaddlemaps._cli.")],
+                                                  "the discovery"))
     ctx.attempt("R20.5", lambda: persistent_state(ctx, "R20.5", [f_ for f_ in (ctx.repo.func(q_, required=False) for q_ in ('auto_map', 'sort_molecules', 'classify_files', '_cli.main')) if f_ is not None], "a command-line run"))
 
 
